@@ -191,7 +191,7 @@ pub fn contracts() -> Vec<Contract> {
             search: search_crash, rerun: rerun_crash },
         Contract { name: "e2e.crash_read_only", covers: &["Hypercore::make_read_only", "Hypercore::flush_bitfield_and_tree_and_oplog", "Oplog::flush", "Oplog::insert_header", "Oplog::open"],
             search: search_crash_ro, rerun: rerun_crash_ro },
-        Contract { name: "e2e.torn_writes", covers: &["Oplog::validate_leader", "Oplog::open"], search: search_torn, rerun: rerun_torn },
+        Contract { name: "e2e.torn_writes", covers: &["Oplog::validate_leader", "Oplog::open", "DynamicBitfield::open", "FixedBitfield::from_data", "MerkleTree::open", "Hypercore::new", "fn node_from_bytes"], search: search_torn, rerun: rerun_torn },
         Contract { name: "e2e.fault_injection", covers: &["Storage::flush_infos", "Storage::read_infos_to_vec", "Hypercore::append_batch", "Hypercore::clear", "Hypercore::get", "Hypercore::flush_bitfield_and_tree_and_oplog", "Hypercore::new", "Hypercore::byte_range"],
             search: search_fault, rerun: rerun_fault },
     ]
